@@ -487,7 +487,11 @@ def pytest_sessionfinish(session, exitstatus):
                     diff = file.diff()
                     if diff:
                         header()
-                        name = file.filename.relative_to(Path.cwd())
+                        try:
+                            name = file.filename.relative_to(Path.cwd())
+                        except ValueError:
+                            # the test file is not below the current directory
+                            name = file.filename
                         console().print(
                             Panel(
                                 Syntax(diff, "diff", theme="ansi_light"),
